@@ -26,6 +26,7 @@ Definition root_error : string := "Cannot expand o2o macro".
 Section Derive.
   Variable be : backend.
   Variable order : list string -> list string.
+  Variable order_tp : list type_path -> list type_path.
 
   Definition parse_input (x : raw_input) : res data_type :=
     match ri_data x with
@@ -35,7 +36,7 @@ Section Derive.
     end.
 
   Definition validate (d : data_type) : res (list string) :=
-    msgs <- validate_msgs d ;; Ok (emit_errors order msgs).
+    msgs <- validate_msgs order_tp d ;; Ok (emit_errors order msgs).
 
   Definition derive_res (x : raw_input) : res (list tok + list string) :=
     d <- parse_input x ;;
@@ -56,6 +57,6 @@ Section Derive.
     end.
 End Derive.
 
-Definition id_order (l : list string) : list string := l.
-Definition derive1 := derive_model S1 id_order.
-Definition derive2 := derive_model S2 id_order.
+Definition id_order {A} (l : list A) : list A := l.
+Definition derive1 := derive_model S1 id_order id_order.
+Definition derive2 := derive_model S2 id_order id_order.
